@@ -130,3 +130,93 @@ func c18ReturnedEntryNotShared(r *core.Run) {
 	}
 	r.Floor(rule, fns, 3)
 }
+
+// c18DecodedReplyNotPooled: Entry.Decode keeps sub-slices of the buffer it is given. The
+// buffer a client decodes a reply from must therefore belong to that reply alone: never a
+// buffer taken from the package's buffer pool, which the deferred pool.Put hands to the next
+// request of anyone in the process — the value already handed back would change under
+// its holder.
+func c18DecodedReplyNotPooled(r *core.Run) {
+	const rule = "decoded-reply-not-pooled"
+	p := r.P
+	n := counter{}
+	cnt := 0
+	for _, fn := range p.FuncList {
+		if fn.SSA == nil || skipPkg(fn) || !strings.HasPrefix(fn.Name, "olric.") {
+			continue
+		}
+		for _, f := range core.AllSSA(fn.SSA) {
+			core.Instrs(f, func(in ssa.Instruction) {
+				c, ok := in.(ssa.CallInstruction)
+				if !ok {
+					return
+				}
+				name := ""
+				if c.Common().IsInvoke() {
+					name = c.Common().Method.Name()
+				} else if o := core.CalleeObj(c); o != nil {
+					name = o.Name()
+				}
+				if name != "Decode" || len(c.Common().Args) == 0 {
+					return
+				}
+				arg := c.Common().Args[len(c.Common().Args)-1]
+				cnt++
+				pooled := false
+				if bc, isCall := arg.(*ssa.Call); isCall && methodName(bc) == "Bytes" && len(bc.Call.Args) > 0 {
+					if src, isCall := bc.Call.Args[0].(*ssa.Call); isCall {
+						if o := core.CalleeObj(src); o != nil && o.Pkg() != nil && strings.HasSuffix(o.Pkg().Path(), "internal/bufpool") {
+							pooled = true
+						}
+					}
+				}
+				r.Check(!pooled, rule, n.next(fn.Name+" Decode"), site(r, instrPos(in)),
+					"the entry is decoded from the reply's own bytes",
+					"the entry handed to the caller is decoded from a pooled buffer: Decode keeps sub-slices of it and the pool gives the same buffer to the next request, so the value already returned changes afterwards")
+			})
+		}
+	}
+	r.Floor(rule, cnt, 2)
+}
+
+// c18EmbeddedGetOwnsItsEntry: every call of EmbeddedDMap.Get hands out the entry that its
+// own lookup produced. The embedded API returns the entry's bytes as they are ("it is safe
+// to modify the contents of the returned value"), so an entry obtained through anything
+// that can give one lookup's result to several callers — a single-flight group, a cache —
+// makes one caller's modification visible to the others.
+func c18EmbeddedGetOwnsItsEntry(r *core.Run) {
+	const rule = "embedded-get-owns-its-entry"
+	fn := r.Need(rule, "olric.(*EmbeddedDMap).Get")
+	if fn == nil {
+		return
+	}
+	f := fn.SSA
+	ok, found := false, false
+	var where ssa.Instruction
+	core.Instrs(f, func(in ssa.Instruction) {
+		st, isSt := in.(*ssa.Store)
+		if !isSt || core.LastField(st.Addr) != "entry" {
+			return
+		}
+		found = true
+		where = in
+		v := st.Val
+		for i := 0; i < 3; i++ {
+			if ci, isCI := v.(*ssa.ChangeInterface); isCI {
+				v = ci.X
+			}
+		}
+		if ex, isEx := v.(*ssa.Extract); isEx && ex.Index == 0 {
+			if c, isCall := ex.Tuple.(*ssa.Call); isCall && callTo(dmapPkg+".(*DMap).Get")(c) && c.Parent() == f {
+				ok = true
+			}
+		}
+	})
+	if !found {
+		r.Unknown(rule, fn.Name, site(r, f.Pos()), "no store into GetResponse.entry")
+		return
+	}
+	r.Check(ok, rule, fn.Name, site(r, instrPos(where)),
+		"the returned entry is the result of this call's own DMap.Get",
+		"the entry handed out is not the direct result of this call's own lookup (it comes through a shared channel: a single-flight group, a cache, a type assertion of something stored): concurrent callers receive the same entry, and one caller modifying its returned bytes changes what the others read")
+}
